@@ -11,6 +11,7 @@ import (
 	ct "github.com/circlefin/noble-cctp/x/cctp/types"
 
 	"verif/harness/chain"
+	"verif/harness/ref"
 )
 
 var c07Starts = []*uint64{nil, u64p(0), u64p(1), u64p(0xffffffff), u64p(0x100000000), u64p(1 << 63), u64p(^uint64(0) - 200000), u64p(^uint64(0) - 2), u64p(^uint64(0))}
@@ -74,7 +75,155 @@ func prodCampaign(rc *RunCtx, chains, steps int) {
 		p.Run(steps, 40)
 		c04Conservation(e)
 	}
+	prodDomainSweep(rc)
+	prodFieldCoincidences(rc)
 	ProbeHistory(rc, rc.Pick(240, 900), rc.Shard%2 == 1)
+}
+
+// prodFieldCoincidences: messages in which two 32-byte fields hold the same bytes (the destination caller equals the
+// sender's own word, the recipient, the module's word, the mint recipient), replaced with new values that again
+// coincide with other fields. Every field of what is emitted is judged separately by the message-sent monitor.
+func prodFieldCoincidences(rc *RunCtx) {
+	e, err := NewProdEngine(rc, false, nil, nil)
+	if err != nil {
+		rc.Cov.Inconclusive("field coincidences engine: " + err.Error())
+		return
+	}
+	user := Acct(UserIx)
+	own := ref.Pad32(addrBytes(user))
+	p := &ProdGen{E: e, G: NewGen(e)}
+	ci := 0
+	word := func(name string, rec []byte) []byte {
+		switch name {
+		case "own":
+			return own
+		case "recipient":
+			return rec
+		case "module":
+			return modulePadded
+		case "zero":
+			return make([]byte, 32)
+		}
+		return Structured32(0x77)
+	}
+	for _, oc := range []string{"own", "recipient", "module", "zero"} {
+		for _, rcp := range []string{"plain", "messenger", "own"} {
+			for _, nc := range []string{"module", "own", "recipient", "zero", "plain"} {
+				for bi := 0; bi < 2; bi++ {
+					ci++
+					if ci%rc.NShards != rc.Shard {
+						continue
+					}
+					rec := Structured32(0x31)
+					if rcp == "messenger" {
+						rec = e.M.Messengers[1]
+					} else if rcp == "own" {
+						rec = own
+					}
+					var m sdk.Msg = &ct.MsgSendMessageWithCaller{From: user, DestinationDomain: 1, Recipient: rec, MessageBody: []byte("coincidence"), DestinationCaller: word(oc, rec)}
+					if oc == "zero" {
+						m = &ct.MsgSendMessage{From: user, DestinationDomain: 1, Recipient: rec, MessageBody: []byte("coincidence")}
+					}
+					r := e.Exec(Tx{Msgs: msgs1(m), Note: fmt.Sprintf("field coincidences: send with caller=%s recipient=%s", oc, rcp)})
+					rc.Cov.Cell("prod_field_coincidences", "send/"+okWord(r.OK))
+					if !r.OK || len(r.Sent) != 1 {
+						continue
+					}
+					body := []byte("replaced")
+					if bi == 1 {
+						body = BurnBody(0, ref.Keccak256([]byte("uusdc")), Structured32(5), big.NewInt(1_000_000), own)
+					}
+					r2 := e.Exec(Tx{Msgs: msgs1(&ct.MsgReplaceMessage{From: user, OriginalMessage: r.Sent[0], OriginalAttestation: e.Attest(r.Sent[0], ci%3), NewMessageBody: body, NewDestinationCaller: word(nc, rec)}),
+						Note: fmt.Sprintf("field coincidences: replace (caller %s -> %s, recipient=%s, burn-shaped body=%v)", oc, nc, rcp, bi == 1)})
+					rc.Cov.Cell("prod_field_coincidences", "replace/"+okWord(r2.OK))
+				}
+			}
+		}
+	}
+	// deposits: the caller / mint recipient coincide with the module's word, the depositor's word, the messenger
+	from, _ := p.funded()
+	dw := ref.Pad32(addrBytes(from))
+	for _, oc := range []string{"module", "depositor", "messenger", "mint-recipient"} {
+		for _, nc := range []string{"module", "depositor", "messenger", "zero", "new-mint-recipient"} {
+			for _, nm := range []string{"depositor", "module", "old-caller", "plain"} {
+				ci++
+				if ci%rc.NShards != rc.Shard {
+					continue
+				}
+				mr := Structured32(0x41)
+				dword := func(name string) []byte {
+					switch name {
+					case "module":
+						return modulePadded
+					case "depositor":
+						return dw
+					case "messenger":
+						return e.M.Messengers[0]
+					case "mint-recipient":
+						return mr
+					case "zero":
+						return make([]byte, 32)
+					}
+					return Structured32(0x52)
+				}
+				r := e.Exec(Tx{Msgs: msgs1(&ct.MsgDepositForBurnWithCaller{From: from, Amount: mkInt(big.NewInt(3)), DestinationDomain: 0, MintRecipient: mr, BurnToken: e.MintDenom(), DestinationCaller: dword(oc)}),
+					Note: "field coincidences: deposit with caller=" + oc})
+				rc.Cov.Cell("prod_field_coincidences", "deposit/"+okWord(r.OK))
+				if !r.OK || len(r.Sent) != 1 {
+					continue
+				}
+				newMr := Structured32(0x52)
+				switch nm {
+				case "depositor":
+					newMr = dw
+				case "module":
+					newMr = modulePadded
+				case "old-caller":
+					newMr = dword(oc)
+				}
+				r2 := e.Exec(Tx{Msgs: msgs1(&ct.MsgReplaceDepositForBurn{From: from, OriginalMessage: r.Sent[0], OriginalAttestation: e.Attest(r.Sent[0], ci%3), NewDestinationCaller: dword(nc), NewMintRecipient: newMr}),
+					Note: fmt.Sprintf("field coincidences: replace deposit (caller %s -> %s, new mint recipient %s)", oc, nc, nm)})
+				rc.Cov.Cell("prod_field_coincidences", "replace-deposit/"+okWord(r2.OK))
+			}
+		}
+	}
+}
+
+// prodDomainSweep: a send (alternating both variants) to every destination domain of sweepDomains, and - after the
+// owner registered a messenger for the domains 6..24 - a deposit to each of them, every second one replaced by its
+// depositor afterwards. What is emitted does not depend on which number the destination domain is.
+func prodDomainSweep(rc *RunCtx) {
+	e, err := NewProdEngine(rc, false, nil, nil)
+	if err != nil {
+		rc.Cov.Inconclusive("domain sweep engine: " + err.Error())
+		return
+	}
+	for i, d := range sweepDomains() {
+		if i%rc.NShards != rc.Shard {
+			continue
+		}
+		var m sdk.Msg = &ct.MsgSendMessage{From: Acct(UserIx), DestinationDomain: d, Recipient: Structured32(byte(d)), MessageBody: []byte("to anywhere")}
+		if i%2 == 1 {
+			m = &ct.MsgSendMessageWithCaller{From: Acct(UserIx), DestinationDomain: d, Recipient: Structured32(byte(d)), MessageBody: []byte("to anywhere"), DestinationCaller: Structured32(byte(d + 1))}
+		}
+		r := e.Exec(Tx{Msgs: msgs1(m), Note: fmt.Sprintf("domain sweep: send to destination domain %d", d)})
+		rc.Cov.Cell("prod_domain_sweep", "send/"+okWord(r.OK))
+		if d >= 6 && d <= 24 {
+			e.Exec(Tx{Msgs: msgs1(&ct.MsgAddRemoteTokenMessenger{From: e.M.Owner, DomainId: d, Address: Messenger(d, 0)}), Note: "domain sweep: register a messenger"})
+			from, _ := (&ProdGen{E: e, G: NewGen(e)}).funded()
+			var dep sdk.Msg = &ct.MsgDepositForBurn{From: from, Amount: mkInt(big.NewInt(int64(1 + d))), DestinationDomain: d, MintRecipient: Structured32(byte(d + 2)), BurnToken: e.MintDenom()}
+			if i%2 == 0 {
+				dep = &ct.MsgDepositForBurnWithCaller{From: from, Amount: mkInt(big.NewInt(int64(1 + d))), DestinationDomain: d, MintRecipient: Structured32(byte(d + 2)), BurnToken: e.MintDenom(), DestinationCaller: Structured32(byte(d + 3))}
+			}
+			r := e.Exec(Tx{Msgs: msgs1(dep), Note: fmt.Sprintf("domain sweep: deposit to destination domain %d", d)})
+			rc.Cov.Cell("prod_domain_sweep", "deposit/"+okWord(r.OK))
+			if r.OK && len(r.Sent) == 1 && d%2 == 0 {
+				r2 := e.Exec(Tx{Msgs: msgs1(&ct.MsgReplaceDepositForBurn{From: from, OriginalMessage: r.Sent[0], OriginalAttestation: e.Attest(r.Sent[0], 0), NewDestinationCaller: Structured32(9), NewMintRecipient: Structured32(8)}),
+					Note: fmt.Sprintf("domain sweep: replace the deposit to destination domain %d", d)})
+				rc.Cov.Cell("prod_domain_sweep", "replace-deposit/"+okWord(r2.OK))
+			}
+		}
+	}
 }
 
 // thresholdAboveSet: configurations in which the signature threshold exceeds the number of enabled attesters
